@@ -144,7 +144,10 @@ def gen_task(rng, c=None):
     if c == 'A':
         return {'c': 'A', 'exc': rng.choice(EXC_KINDS),
                 'reraise': rng.random() < 0.7,
-                'prog': gen_prog(rng, 1, rng.choice((2, 4, 8, 12)))}
+                'prog': gen_prog(rng, 1, rng.choice((2, 4, 8, 12))),
+                # the documented pattern: leave the block quietly (reraise
+                # off) and call force_reraise() on the context afterwards
+                'post_force': rng.random() < 0.3}
     if c == 'B':
         return {'c': 'B', 'exc': rng.choice(EXC_KINDS),
                 'variant': core.weighted(rng, [('capture_force', 6),
@@ -172,6 +175,10 @@ def gen_task(rng, c=None):
             # the remove callback is itself a place where a greenthread can
             # be switched out (it does I/O)
             'rm_yield': rng.random() < 0.5,
+            # entered through an ExitStack together with a context manager
+            # that translates the exception: __exit__ is then handed an
+            # exception that is not the one the interpreter is handling
+            'exitstack': rng.random() < 0.2,
             'pre': [[rng.choice(('nop', 'inner', 'yield'))]
                     for _ in range(rng.randint(0, 3))]}
 
@@ -365,6 +372,9 @@ class Real:
                 with self.ex.save_and_reraise_exception(
                         reraise=s['reraise'], logger=lg) as ctx:
                     self.body(ctx, s['prog'], yield_fn, [], e0)
+                if s.get('post_force'):
+                    self.notes['post_forced'] = True
+                    ctx.force_reraise()
             self.result = ('none',)
         except BaseException as e:
             self.result = ('raised', e, tb_sig(e.__traceback__))
@@ -524,11 +534,30 @@ class Real:
                         p, remove=backend_unlink))
             else:
                 cm = self.fu.remove_path_on_error(path, remove=inject)
-            with cm:
-                self.ops(s['pre'], yield_fn)
-                if s['body'] == 'raise':
+            if s.get('exitstack') and s['body'] == 'raise':
+                import contextlib
+                translated = NewErr('%s:translated' % self.tid)
+                self.objs['%s:translated' % self.tid] = translated
+
+                @contextlib.contextmanager
+                def translating():
+                    try:
+                        yield
+                    except Exception as inner:
+                        raise translated from inner
+                self.notes['translated'] = True
+                with contextlib.ExitStack() as stack:
+                    stack.enter_context(cm)
+                    stack.enter_context(translating())
+                    self.ops(s['pre'], yield_fn)
                     self.notes['raised'] = True
                     raise_original(e0, s['exc'])
+            else:
+                with cm:
+                    self.ops(s['pre'], yield_fn)
+                    if s['body'] == 'raise':
+                        self.notes['raised'] = True
+                        raise_original(e0, s['exc'])
             self.result = ('none',)
         except BaseException as e:
             self.result = ('raised', e, tb_sig(e.__traceback__))
@@ -801,7 +830,15 @@ class C09(Check):
             if out is not None and out.endswith(':orig') and \
                     ctxs[0].normal_exit and not k9:
                 pref = self._prefix_ref('A')
-            expect(out, k9=k9, prefix_ref=pref)
+            if out is None and r.notes.get('post_forced'):
+                # left quietly, then force_reraise() on the context: the
+                # original object with the traceback of its original raise
+                # (unless the body had already forced it: K9 territory)
+                if not ctxs[0].forced:
+                    bump(pr, 'force_reraise_after_quiet_block')
+                    expect('%s:orig' % tid)
+            else:
+                expect(out, k9=k9, prefix_ref=pref)
             # logging, per block in creation order
             got_logs = [len(lg.errors) for lg in r.loggers]
             want_logs = [c.logs for c in ctxs]
@@ -857,6 +894,12 @@ class C09(Check):
                         expect('%s:other' % tid)
         else:
             raised = s['body'] == 'raise'
+            # what the context manager was handed: the original, or what a
+            # later context manager of the same ExitStack made of it
+            dlabel = ('%s:translated' % tid if r.notes.get('translated')
+                      else '%s:orig' % tid)
+            if r.notes.get('translated'):
+                bump(pr, 'exit_called_with_translated_exception')
             calls = r.notes.get('rm_calls', [])
             exists = r.notes.get('exists_after')
             if not raised:
@@ -874,7 +917,7 @@ class C09(Check):
                         viol('remover_not_called_once', calls=len(calls))
                 elif rm == 'custom_ok':
                     if s['state'] == 'file':
-                        expect('%s:orig' % tid)
+                        expect(dlabel)
                         if exists:
                             viol('path_not_removed')
                         if calls != [r.notes['path']]:
@@ -890,7 +933,7 @@ class C09(Check):
                     if rm == 'backend' and s['state'] == 'missing':
                         bump(pr, 'backend_reports_enoent_its_own_way')
                     if s['state'] in ('file', 'missing'):
-                        expect('%s:orig' % tid)
+                        expect(dlabel)
                         if exists:
                             viol('path_not_removed')
                         bump(pr, 'original_reraised_same_object')
